@@ -380,7 +380,7 @@ func mutateTokens(r *rng.R, text string) string {
 func runC08(c *checker, r *rng.R) {
 	nValid, nMut, nBytes, k := 1800, 7000, 1200, 5
 	if *tier == "thorough" {
-		nValid, nMut, nBytes, k = 4000, 30000, 5000, 6
+		nValid, nMut, nBytes, k = 20000, 80000, 10000, 7
 	}
 	// structured: every kind of cycle, deep chains, invalid references
 	for _, cc := range cyclePrograms(r, k) {
